@@ -7,6 +7,7 @@ CONSTANTS
   FixPresence = TRUE
   FixEmptyMap = TRUE
   FixSplit = TRUE
+  FixOrLast = TRUE
   Emit = TRUE
 CONSTRAINT EmitRewrite
 CHECK_DEADLOCK FALSE
